@@ -16,6 +16,7 @@ package owa
 
 //@ func (*owaParams).find
 //@   property C07 C15 C18 C03 C20 C01 C09 C19
+//@   indexsafe
 //@   requires o.Weights != nil
 //@   panics_iff [missing] !(exists k int :: 0 <= k && k < len(*o.Weights) && (*o.Weights)[k].Id == criterion.Id)
 //@   ensures [first_match] result != nil && exists k int :: 0 <= k && k < len(*o.Weights) && *result == (*o.Weights)[k] && result.Id == criterion.Id
@@ -23,6 +24,7 @@ package owa
 
 //@ func (*OwaBiasListener).OnCriteriaRemoved
 //@   property C07 C15 C03 C01 C09 C20
+//@   indexsafe
 //@   nopanic
 //@   refines model.BiasListener.OnCriteriaRemoved with validParams=owaValid, coversId=owaCovers
 //@   loop 1 invariant [ctx] fresh(newWeights) && len(newWeights) == len(*leftCriteria)
@@ -30,6 +32,7 @@ package owa
 
 //@ func (*OwaBiasListener).OnCriterionAdded
 //@   property C07 C18 C03 C01 C09 C19 C20
+//@   indexsafe
 //@   fnparam generator ensures 0.0 <= result && result < 1.0
 //@   refines model.BiasListener.OnCriterionAdded with validParams=owaValid, coversId=owaCovers, accepts=owaAccepts, acceptsAny=owaAcceptsAny
 //@   ensures [returns_single_weight] typeis(result, model.WeightType) && criterion.Id in result.(model.WeightType).Weights
@@ -38,6 +41,7 @@ package owa
 
 //@ func _sortWeightsMutate
 //@   property C03 C07 C20 C18 C01 C04 C15 C09 C19
+//@   indexsafe
 //@   assigns *weights
 //@   ensures [same_length] len(*weights) == old(len(*weights)) && *weights == old(*weights)
 //@   ensures [ascending] forall i int, j int :: 0 <= i && i < j && j < len(*weights) ==> (*weights)[i].Weight <= (*weights)[j].Weight
@@ -47,10 +51,12 @@ package owa
 // criterionAlreadyExist: the rejection itself - never returns
 //@ func criterionAlreadyExist
 //@   property C07 C03 C20 C18 C01 C09 C19
+//@   indexsafe
 //@   panics_iff [always] true
 
 //@ func addCriteria
 //@   property C07 C03 C20 C18 C01 C09 C19
+//@   indexsafe
 //@   requires 0 <= offset && offset + len(*toAdd) <= len(*result) && *validationCache != nil && arr(*result) != arr(*toAdd)
 //@   assigns *result, *validationCache
 //@   ensures [copied] forall k int :: offset <= k && k < offset + len(*toAdd) ==> (*result)[k] == (*toAdd)[k - offset]
@@ -67,6 +73,7 @@ package owa
 
 //@ func (*owaParams).merge
 //@   property C07 C18 C03 C20 C01 C09 C19
+//@   indexsafe
 //@   requires o.Weights != nil && other.Weights != nil
 //@   ensures [merged] result != nil && result.Weights != nil && len(*result.Weights) == len(*o.Weights) + len(*other.Weights)
 //@   ensures [old_kept] forall j int :: 0 <= j && j < len(*o.Weights) ==> exists k int :: 0 <= k && k < len(*result.Weights) && (*result.Weights)[k] == (*o.Weights)[j]
@@ -77,6 +84,7 @@ package owa
 
 //@ func (*OwaBiasListener).Merge
 //@   property C07 C18 C03 C01 C09 C19 C20
+//@   indexsafe
 //@   refines model.BiasListener.Merge with validParams=owaValid, coversId=owaCovers, accepts=owaAccepts, acceptsAny=owaAcceptsAny
 //@   ensures [a_single_added_weight_is_taken_as_given] typeis(addition, model.WeightType) ==> forall q string :: q in addition.(model.WeightType).Weights ==>
 //@             exists k int :: 0 <= k && k < len(*result.(owaParams).Weights) && (*result.(owaParams).Weights)[k].Id == q && (*result.(owaParams).Weights)[k].Weight == addition.(model.WeightType).Weights[q]
@@ -105,6 +113,7 @@ package owa
 
 //@ func sortWeights
 //@   property C03 C20 C01 C04 C07 C15 C18
+//@   indexsafe
 //@   ensures [ascending_copy] fresh(result) && fresh(*result) && len(*result) == len(*weights)
 //@             && forall i int, j int :: 0 <= i && i < j && j < len(*result) ==> (*result)[i].Weight <= (*result)[j].Weight
 //@   ensures [members] forall k int :: 0 <= k && k < len(*result) ==> exists j int :: 0 <= j && j < len(*weights) && (*result)[k] == (*weights)[j]
@@ -112,20 +121,24 @@ package owa
 
 //@ func validateSameCriteriaAndWeightsCount
 //@   property C03 C20 C01 C04 C07 C15 C18
+//@   indexsafe
 //@   panics_iff [count_mismatch] len(alternative.Criteria) != len(*weights)
 
 // owa expects the weights already in ascending order (its only caller, OWA, sorts a copy first)
 //@ func owa
 //@   property C03 C20 C01 C04 C07 C15 C18
+//@   indexsafe
 //@   requires [weights_ascending] forall i int, j int :: 0 <= i && i < j && j < len(*sortedWeights) ==> (*sortedWeights)[i].Weight <= (*sortedWeights)[j].Weight
 //@   ensures [single_value] result != nil && typeis(result.Evaluation, model.EvaluationSingleValue) && result.Alternative == *alternative
 //@   returnhint [ascending_weights_times_ascending_values] model.val(*result) == zipsum(*sortedWeights, *sortedAlternativeCriteriaWeights, len(*sortedWeights))
 //@             && forall i int, j int :: 0 <= i && i < j && j < len(*sortedAlternativeCriteriaWeights) ==> (*sortedAlternativeCriteriaWeights)[i] <= (*sortedAlternativeCriteriaWeights)[j]
 //@ func OWA
 //@   property C03 C20 C01 C04 C07 C15 C18
+//@   indexsafe
 //@   ensures [single_value] result != nil && typeis(result.Evaluation, model.EvaluationSingleValue) && result.Alternative == alternative
 //@ func (*OWAPreferenceFunc).Evaluate$1
 //@   property C03 C20 C15 C07 C18 C01 C04
+//@   indexsafe
 //@   requires weights.Weights != nil
 //@   ensures [is_owa] result != nil && typeis(result.Evaluation, model.EvaluationSingleValue) && result.Alternative == *alternative
 
@@ -141,14 +154,17 @@ package owa
 // a weight for every declared criterion and no other (count checked), kept in ascending order of weight
 //@ func (*OWAPreferenceFunc).ParseParams
 //@   property C03 C20 C07 C01
+//@   indexsafe
 //@   ensures [one_weight_per_criterion_ascending] typeis(result, owaParams) && result.(owaParams).Weights != nil && len(*result.(owaParams).Weights) == len(dm.Criteria)
 //@             && forall i int, j int :: 0 <= i && i < j && j < len(*result.(owaParams).Weights) ==> (*result.(owaParams).Weights)[i].Weight <= (*result.(owaParams).Weights)[j].Weight
 //@ func (*OWAPreferenceFunc).Identifier
 //@   property C20 C03 C01 C04 C05 C06 C07 C08 C09 C11 C12 C13 C14 C15 C16 C17 C18 C19
+//@   indexsafe
 //@   nopanic
 //@   ensures [name] result == "owa"
 //@ func (*OWAPreferenceFunc).MethodParameters
 //@   property C20 C03
+//@   indexsafe
 //@   nopanic
 //@   ensures [schema_of_the_weights_parameter] typeis(result, model.WeightType)
 
@@ -162,6 +178,7 @@ package owa
 // ---- registered names (what a request must say to select this object; what error messages list)
 //@ func (*OwaBiasListener).Identifier
 //@   property C07 C20 C01 C03 C04 C05 C06 C08 C09 C11 C12 C13 C14 C15 C16 C17 C18 C19
+//@   indexsafe
 //@   nopanic
 //@   ensures [name] result == "owa"
 
@@ -169,6 +186,7 @@ package owa
 //@ spec owaImportance(l model.BiasListener, p *model.DecisionMakingParams, id string) real = model.cumw(p.ConsideredAlternatives, id, len(p.ConsideredAlternatives), model.WeightIdentity)
 //@ func (*OwaBiasListener).RankCriteriaAscending
 //@   property C15 C07 C16 C18 C19 C01 C09 C20
+//@   indexsafe
 //@   refines model.BiasListener.RankCriteriaAscending with validParams=owaValid, coversId=owaCovers, imp=owaImportance
 //@   requires [distinct] model.distinctCriteria(params.Criteria)
 //@   ensures [every_criterion_once_ascending] result != nil && fresh(result) && fresh(*result) && len(*result) == len(params.Criteria)
@@ -180,6 +198,7 @@ package owa
 // the method as a whole: one entry per considered alternative, ordered by value then id, links without self-reference or repeats
 //@ func (*OWAPreferenceFunc).Evaluate
 //@   property C03 C01 C04 C15 C07 C18 C20
+//@   indexsafe
 //@   requires [distinct] forall i int, j int :: 0 <= i && i < j && j < len(dmp.ConsideredAlternatives) ==> dmp.ConsideredAlternatives[i].Id != dmp.ConsideredAlternatives[j].Id
 //@   requires [params] typeis(dmp.MethodParameters, owaParams) && dmp.MethodParameters.(owaParams).Weights != nil
 //@   ensures [one_entry_each] result != nil && len(*result) == len(dmp.ConsideredAlternatives)
